@@ -25,7 +25,7 @@ claim(
 claim(
     "C29",
     "other",
-    "Decides the overlap predicate for every integer input: check_overlap only compares the eight slice endpoints (checked by a dataflow scan), so evaluating it on one representative of each of the 13^3 combinations of per-axis order types (Allen relations) is exhaustive; oracle: a true 3-D half-open intersection must yield True. Also decides that place_objects applies an object iff no device overlaps it and apply_params re-applies iff one does (same receiver/argument orientation), after the device loop and against the current material arrays. Behaviourally: apply_params interpreted end to end with two devices and three other objects re-applies exactly those overlapping some device (the first as well as the last), once each, and every material-state argument (incl. the c4 coefficients when allocated) is the array the function returns. What apply() computes is not decided. The re-apply gate is exercised through the repo's own predicate on concrete stand-in boxes (an object flush against the first device, one sharing cells with the last, one separated): the flush and the overlapping object are re-applied once each with the returned arrays, the separated one is not.",
+    "Decides the overlap predicate for every integer input: check_overlap only compares the eight slice endpoints (checked by a dataflow scan), so evaluating it on one representative of each of the 13^3 combinations of per-axis order types (Allen relations) is exhaustive; oracle: a true 3-D half-open intersection must yield True. Also decides that place_objects applies an object iff no device overlaps it and apply_params re-applies iff one does (same receiver/argument orientation), after the device loop and against the current material arrays. Behaviourally: apply_params interpreted end to end with two devices and three other objects re-applies exactly those overlapping some device (the first as well as the last), once each, and every material-state argument (incl. the c4 coefficients when allocated) is the array the function returns. What apply() computes is not decided. The re-apply gate is exercised through the repo's own predicate on concrete stand-in boxes (objects flush against the first device along x and along z, one sharing cells with the last device, one entirely inside it, one containing it, one separated): the flush, the overlapping, the contained and the containing objects are re-applied once each with the returned arrays, the separated one is not.",
     TB + "; exhaustiveness rests on the comparison-only dataflow check",
     "finite order-type (region) enumeration by abstract interpretation + syntax-tree rules on the two call sites",
     "DESIGN.md §5 C29",
